@@ -167,8 +167,10 @@ def needs_clf(strategy):
     return "clf" in inspect.signature(strategy.query).parameters
 
 
-def query_strategy(qs, cand, clf, return_utilities=True):
+def query_strategy(qs, cand, clf, return_utilities=True, X=None, y=None):
     if needs_clf(qs):
+        if X is not None:
+            return qs.query(cand, clf=clf, X=X, y=y, return_utilities=return_utilities)
         return qs.query(cand, clf=clf, return_utilities=return_utilities)
     return qs.query(cand, return_utilities=return_utilities)
 
